@@ -36,6 +36,7 @@ def make_complex(x, y=None):
     :rtype: torch.Tensor
     """
     if isinstance(x, np.ndarray):
+        x = x.copy()  # torch cannot read views with negative strides
         return make_complex(torch.tensor(x.real), torch.tensor(x.imag)).contiguous()
 
     if y is None:
